@@ -27,6 +27,14 @@ var mutants []Mutant
 
 func addMutant(m Mutant) { mutants = append(mutants, m) }
 
+// second edit of a two-edit mutant (a helper definition added next to the call site that uses it)
+var mutantExtra = map[string][2]string{}
+
+func addMutant2(m Mutant, old2, new2 string) {
+	mutants = append(mutants, m)
+	mutantExtra[m.Name] = [2]string{old2, new2}
+}
+
 type selfTestResult struct {
 	Run, Detected, Missed, NotApplicable int
 	MissedNames                          []string
@@ -43,7 +51,14 @@ func applyMutant(dir string, m Mutant) (map[string][]byte, error) {
 	if strings.Count(s, m.Old) != 1 {
 		return nil, fmt.Errorf("anchor text occurs %d times", strings.Count(s, m.Old))
 	}
-	return map[string][]byte{p: []byte(strings.Replace(s, m.Old, m.New, 1))}, nil
+	s = strings.Replace(s, m.Old, m.New, 1)
+	if ex, ok := mutantExtra[m.Name]; ok {
+		if strings.Count(s, ex[0]) != 1 {
+			return nil, fmt.Errorf("second anchor text occurs %d times", strings.Count(s, ex[0]))
+		}
+		s = strings.Replace(s, ex[0], ex[1], 1)
+	}
+	return map[string][]byte{p: []byte(s)}, nil
 }
 
 // runMutant (child process): prints the failing obligation keys of the property on the mutated tree.
